@@ -567,12 +567,20 @@ def judge_big_offsets(res, runs):
     n = (1 << 32) + 5
     want = {"S": (0, n + 5), "T": (n, n + 2), "U": (n + 2, n + 4), "M": (n + 4, n + 5)}
     k = 0
+    skipped = []
     for r in runs:
         for c in r.synthetic:
             k += 1
             c.fam = r.fam
             a = c.act
             ex = {"name": "offsets_beyond_32_bits", "site": "offsets-beyond-32-bits"}
+            if "skipped" in a or a.get("crash") == "timeout":
+                # the machine, not the parser: no address space for the input, or the run was cut by the driver's
+                # clock.  Nothing was observed, so nothing is judged; the evidence says the case was not run.
+                k -= 1
+                skipped.append(a.get("skipped") or a.get("crash"))
+                vlib.log("C09: the 4 GiB input was not run on this machine (%s)" % skipped[-1])
+                continue
             if "crash" in a or not a.get("res", {}).get("ok"):
                 res.add(Violation("C09", "RangesExact", "input of 2^32 + 10 bytes (an extern rule skips the first 2^32 + 5): not parsed: %s" % (
                     json.dumps(a.get("res", a.get("crash")))[:200]), None, ex))
@@ -591,6 +599,8 @@ def judge_big_offsets(res, runs):
                 if a.get(key) is False:
                     res.add(Violation("C09", "RangesExact", "the parse of the 4 GiB input differs when repeated / traced (%s)" % key, None, ex))
     res.coverage["inputs_beyond_32_bit_offsets"] = k
+    if skipped:
+        res.coverage["inputs_beyond_32_bit_offsets_not_run"] = skipped
 
 
 def check_C09(tier, seed, replay):
